@@ -609,6 +609,8 @@ void f_unique_mapping (void) {
         }
     }
 
+  if (numkeys > CONFIG_INT (__MAX_MAPPING_SIZE__))
+    mapping_too_large (); /* the error handler on the stack releases the table */
   m = allocate_mapping (nmask = numkeys << 1);
   mtable = m->table;
   numkeys = 0;
